@@ -19,8 +19,8 @@ import (
 	"time"
 
 	"verif/mc/hres"
-	"verif/mc/sys/raftkvs"
 	ss "verif/mc/specstep"
+	"verif/mc/sys/raftkvs"
 	"verif/mc/tlabridge"
 )
 
@@ -36,13 +36,13 @@ type deepPair struct {
 	// Explore builds the (seeded) system used to *find* states; Full builds the system with the
 	// spec's unrestricted environment used to compute their successors.  Both must use the same
 	// representation of globals (the spec's).
-	Explore func() (*ss.System, error)
-	Full    func() *ss.System
-	Delays  int
-	MaxDev  int
+	Explore   func() (*ss.System, error)
+	Full      func() *ss.System
+	Delays    int
+	MaxDev    int
 	MaxStates int
-	pair    *pair // rename tables etc.
-	Quick   bool
+	pair      *pair // rename tables etc.
+	Quick     bool
 }
 
 func tlaText(canon string) string {
